@@ -333,7 +333,7 @@ func (p *P2P) handleConnection(conn *Connection, private bool) error {
 		return err
 	}
 
-	go conn.Writer()
+	// the writer goroutine was already started by NewConnection; a second one would reorder packets
 
 	go func() {
 		err := p.connectionMainHandling(conn, private, ipPort)
